@@ -19,7 +19,7 @@ import (
 	"golang.org/x/tools/go/ssa/ssautil"
 )
 
-const repoDir = "/repo"
+var repoDir = "/repo" // VERIF_REPO overrides it for background development runs on a snapshot; the registered commands use /repo
 
 var verifDir = "/verif"
 var maxWitPerMsg = 3
